@@ -933,3 +933,49 @@ def _ancestors(n):
     while n is not None:
         yield n
         n = n.get('_p')
+
+
+PERSISTENT_ALLOWED = {
+    # (function name, variable name): reason
+    ('random_data', 'buffer'): 'the per-thread pool of random bytes is the point of the function (C20-R5 judges its accounting)',
+    ('random_data', 'fd'): '/dev/urandom descriptor opened once per thread',
+    ('get_values_multi', 'empty_vec'): 'an empty vector handed out by reference for absent options; never written',
+}
+
+
+def input_dependent_persistent_writes(func):
+    """[(persistent VarDecl, write node)]: a function-local with static / thread storage that is
+    written with data derived from the call's arguments and is not reset at the start of the call:
+    what one call leaves there is seen by the next one."""
+    out = []
+    body = body_of(func)
+    if body is None:
+        return out
+    pers = [v for v in persistent_locals(func) if (func.get('name'), v.get('name')) not in PERSISTENT_ALLOWED and not reset_before_use(v, func)]
+    if not pers:
+        return out
+    tainted = {p['id'] for p in params_of(func)}
+    changed = True
+    while changed:
+        changed = False
+        for v in walk(body):
+            if v.get('kind') == 'VarDecl' and v['id'] not in tainted and kids(v) and any(y.get('kind') == 'DeclRefExpr' and (y.get('referencedDecl') or {}).get('id') in tainted for y in walk(v)) or \
+               (v.get('kind') == 'VarDecl' and v['id'] not in tainted and kids(v) and any(y.get('kind') == 'CXXThisExpr' for y in walk(v))):
+                tainted.add(v['id'])
+                changed = True
+    for pv in pers:
+        for x in walk(body):
+            k = x.get('kind')
+            tgt = None
+            if k in ('BinaryOperator', 'CompoundAssignOperator') and x.get('opcode') in ASSIGN_OPS:
+                tgt = x['inner'][0]
+            elif k == 'CXXOperatorCallExpr' and (call_name(x) or '') in ('operator=', 'operator+=', 'operator<<'):
+                tgt = kids(x)[1]
+            elif k == 'CXXMemberCallExpr' and (call_name(x) or '') in ('push_back', 'emplace_back', 'append', 'assign', 'insert', 'emplace', 'resize', 'operator=', 'swap'):
+                tgt = member_call_object(x)
+            if tgt is None or not any(y.get('kind') == 'DeclRefExpr' and (y.get('referencedDecl') or {}).get('id') == pv['id'] for y in walk(tgt)):
+                continue
+            if any((y.get('kind') == 'DeclRefExpr' and (y.get('referencedDecl') or {}).get('id') in tainted) or y.get('kind') == 'CXXThisExpr' for y in walk(x)):
+                out.append((pv, x))
+                break
+    return out
